@@ -15,16 +15,23 @@ Two further per-run families widen "at any point" and "the target path":
     ENAMETOOLONG, EMFILE, EEXIST, EXDEV, EIO, ...), the operation carries on or
     gives up, and every crash point of whatever it does AFTER the failed call
     is enumerated too (fault, then crash, inside one operation).
+Two more families widen "the target path" and "a persisted application is saved":
+  * what kind of directory entry the target is before the operation: an ordinary
+    one-name file, a file that has a second hard link (in the same or in another
+    directory), a symbolic link to a file elsewhere, a dangling symbolic link;
+  * how the application is persisted: Persistent style "pickle" or "source"
+    (setStyle), default name, tagged name (save(tag=...)) or explicit filename.
 An operation that reports failure (raises) is held to the same old-or-new
 oracle as a crashed one; one that returns normally must have stored the new
 content.
 """
 import errno
 import hashlib
+import io
 import os
 import pickle
 
-from twisted.persisted import sob
+from twisted.persisted import aot, sob
 from twisted.python import filepath
 
 from detsim import fs as simfs
@@ -35,11 +42,13 @@ LEVEL = "fault_enumeration"
 TECHNIQUE = "deterministic simulation: crash at every interposed filesystem call (+ torn writes, + after an injected errno failure) of seeded replacement cases, old-or-new oracle"
 QUICK_RUNS = 4000
 BATCH = 20
-COMPONENTS = {"real": ["twisted.python.filepath.FilePath.setContent/temporarySibling/create/open", "twisted.persisted.sob.Persistent.save/_saveTemp",
-                       "the real filesystem under a scratch directory (reads)"],
+COMPONENTS = {"real": ["twisted.python.filepath.FilePath.setContent/temporarySibling/create/open", "twisted.persisted.sob.Persistent.save/_saveTemp/setStyle (pickle and source styles, tag / filename naming)",
+                       "the real filesystem under a scratch directory (reads; hard links, symbolic links and st_nlink are the real ones)", "twisted.persisted.aot.jellyToSource (source style)"],
               "stub": ["process/kernel boundary for mutating calls (detsim.fs interposer: crash points, torn writes, user-space buffer loss)",
                        "filepath.randomBytes (deterministic temp names)"]}
-RULE = ("run = one tape-drawn case (API variant, target exists or not, old/new content sizes 0..20 KiB, user-space buffer size, basename length class "
+RULE = ("run = one tape-drawn case (API variant, for Persistent its style pickle/source and tagged or untagged name, target exists or not, kind of the target's directory entry "
+        "(one-name file / second hard link in the same or another directory / symbolic link to a file elsewhere / dangling symbolic link), old/new content sizes 0..20 KiB (0..5 KiB for source style, whose stored form is up to 4x as long), "
+        "user-space buffer size, basename length class "
         "short / 32..200 bytes / NAME_MAX-40..NAME_MAX, errno-fault family on or off with its errnos) for which every crash point "
         "1..N and torn-write lengths {0,1,len/2,len-1} are enumerated, each followed by restart + byte-level inspection + two crash-free saves (a shorter content, then the new content) over whatever the crash left; "
         "with the errno family on, additionally every non-write call fails once with each of the run's 3 open-class / 2 rename-class errnos and the first, the last and one drawn kernel write "
@@ -50,6 +59,8 @@ RULE = ("run = one tape-drawn case (API variant, target exists or not, old/new c
 ASSUMPTIONS = ["POSIX rename() is atomic and data handed to write() before a crash survives (process crash, not power loss; the property and the code make no fsync claim)",
                "a crash loses everything still in the process's user-space file buffer",
                "an injected errno failure has no effect on the filesystem (the failed call did nothing; a failed kernel write wrote nothing) and the exception reaches the calling code as OSError(errno)",
+               "the statement speaks of the target path only: no verdict on what the OTHER names of a hard-linked target, or the file a symbolic-link target pointed to, hold afterwards "
+               "(they are set up by the harness, are not counted as left-behind files, and the target is always read the way a reader would: through the path, following links)",
                "no verdict on whether an operation SUCCEEDS for a target name within 40 bytes of NAME_MAX (it may refuse with OSError because its temporary name does not fit) - only old-or-new is demanded "
                "of a refusal; for every other name a fault-free operation must succeed. The errno is injected at the interposer, the real directory stays writable (the harness runs as root, so mode "
                "bits cannot produce EACCES for real)"]
@@ -74,7 +85,7 @@ def _fake_random(n):
     return hashlib.sha256(b"c52-%d" % _ctr[0]).digest()[:n]
 
 
-def _content(sim, label):
+def _content(sim, label, big=20000):
     kind = sim.draw_choice(["small", "empty", "medium", "large"], label)
     if kind == "empty":
         return b""
@@ -82,7 +93,16 @@ def _content(sim, label):
         return sim.draw_bytes(sim.draw_int(1, 12, "len"), b"abcxyz\n\x00\xff")
     if kind == "medium":
         return sim.draw_blob(sim.draw_int(13, 300, "len"))
-    return sim.draw_blob(sim.draw_int(301, 20000, "len"))
+    return sim.draw_blob(sim.draw_int(301, big, "len"))
+
+
+def _encode(style, content):
+    """The bytes a complete save of `content` stores (computed apart from sob: pickle / aot directly)."""
+    if style == "source":
+        out = io.BytesIO()
+        aot.jellyToSource(Obj(content), out)
+        return out.getvalue()
+    return pickle.dumps(Obj(content), 2)
 
 
 # errno values a failing call of each class can plausibly report (value 0 of a draw = first item)
@@ -95,21 +115,33 @@ NEAR = 40    # a target name within NEAR bytes of NAME_MAX leaves too little roo
 def _op_class(op):
     if op == "write":
         return "write"
-    if op in ("rename", "replace"):
+    if op in ("rename", "replace", "link"):
         return "rename"
     return "open"
 
 
 def run(sim):
     variant = sim.draw_choice(["setContent", "setContent-ext", "sob.save", "sob.save-filename"], "variant")
+    # how the application is persisted (Persistent variants only): style and naming; value 0 = the defaults
+    style = sim.draw_choice(["pickle", "source"], "style") if variant.startswith("sob") else None
+    tag = sim.draw_choice([None, "tag", "v2"], "tag") if variant == "sob.save" else None
     exists = sim.draw_bool(0.7, "target_exists")
-    old = _content(sim, "old") if exists else None
-    new = _content(sim, "new")
+    # what kind of directory entry the target is before the operation
+    if exists:
+        kind = sim.draw_weighted([("file", 11), ("hardlink-same-dir", 3), ("hardlink-other-dir", 2), ("symlink", 3)], "target_kind")
+    else:
+        kind = sim.draw_weighted([("absent", 8), ("dangling-symlink", 2)], "target_kind")
+    # (serialising to source costs ~0.5 ms per KiB and happens in every one of the case's hundreds of executions: smaller "large" contents there)
+    big = 5000 if style == "source" else 20000
+    old = _content(sim, "old", big) if exists else None
+    new = _content(sim, "new", big)
     if old is not None and old == new:
         new = new + b"!"
     # user-space buffer size: chosen so a case has at most ~12 kernel writes (enumeration is quadratic in them)
     nchunks = sim.draw_choice([1, 2, 3, 5, 12], "nchunks")
-    bufsize = 8192 if nchunks == 1 else max(4, -(-(len(new) + 200) // nchunks))
+    # (the source form of a content is up to four times as long as the content)
+    stored_len = len(_encode(style, new)) if style == "source" else len(new)
+    bufsize = 8192 if nchunks == 1 else max(4, -(-(stored_len + 200) // nchunks))
     # length of the target's basename in bytes: ordinary, long, or within NEAR bytes of the directory's NAME_MAX
     # (the temporary name next to the target is longer than the target's own name)
     name_class = sim.draw_weighted([("short", 14), ("long", 2), ("near-limit", 4)], "name_class")
@@ -122,7 +154,7 @@ def run(sim):
     if faults:
         errs = {"open": sim.draw_perm(OPEN_ERRNOS)[:3], "rename": sim.draw_perm(RENAME_ERRNOS)[:2], "write": [sim.draw_choice(WRITE_ERRNOS, "write_errno")]}
     write_pick = sim.draw_int(0, 11, "write_fault_pick") if faults else 0
-    sim.config = {"variant": variant, "exists": exists, "old_len": None if old is None else len(old), "new_len": len(new), "bufsize": bufsize,
+    sim.config = {"variant": variant, "style": style, "tag": tag, "kind": kind, "exists": exists, "old_len": None if old is None else len(old), "new_len": len(new), "bufsize": bufsize,
                   "name_class": name_class, "name_slack": name_slack, "name_len": name_len, "errno_faults": None if errs is None else {c: [errno.errorcode[e] for e in errs[c]] for c in sorted(errs)}}
     _ctr[0] = 0
     F = simfs.FS(sim, bufsize=bufsize)
@@ -133,24 +165,32 @@ def run(sim):
         name_max = os.pathconf(F.root, "PC_NAME_MAX")
         if name_class == "near-limit":
             name_len = name_max - name_slack
-        sim.event("case", variant, "old", "-" if old is None else len(old), "new", len(new), "buf", bufsize,
+        sim.event("case", variant, style or "-", tag or "-", kind, "old", "-" if old is None else len(old), "new", len(new), "buf", bufsize,
                   "name", name_class, "-" if name_len is None else name_max - name_len, "faults", int(faults))
         with simfs.Installed(F, bindings):
-            _enumerate(sim, F, variant, old, new, name_class, name_len, errs, write_pick)
+            _enumerate(sim, F, variant, style, tag, kind, old, new, name_class, name_len, errs, write_pick)
     finally:
         filepath.randomBytes = saved_rb
         F.destroy()
 
 
-def _enumerate(sim, F, variant, old, new, name_class, name_len, errs, write_pick):
+def _enumerate(sim, F, variant, style, tag, kind, old, new, name_class, name_len, errs, write_pick):
     is_sob = variant.startswith("sob")
     d = os.path.join(F.root, "d")
-    suffix = ".tap" if variant == "sob.save" else ".dat"
+    side = os.path.join(F.root, "o")       # a second directory: the other name of a hard-linked target / the file behind a symlinked one
+    ext = ".tas" if style == "source" else ".tap"
+    suffix = ext if variant == "sob.save" else ".dat"
+    mid = "-" + tag if tag else ""
     stem = "app" if variant == "sob.save" else "target"
     if name_len is not None:
-        stem = (stem + "-" + "n" * name_len)[:name_len - len(suffix)]
-    tname = stem + suffix
+        stem = (stem + "-" + "n" * name_len)[:name_len - len(suffix) - len(mid)]
+    tname = stem + mid + suffix
     target = os.path.join(d, tname)
+    # names the harness itself puts next to the target (the second hard link): not "left behind" by the operation
+    pre = ["snapshot.lnk"] if kind == "hardlink-same-dir" else []
+    # the label used in witnesses: the variant plus every non-default family member
+    label = variant + "".join("+" + x for x in (style if style == "source" else None, "tag" if tag else None,
+                                                  kind if kind not in ("file", "absent") else None) if x)
     # a near-limit name may legitimately make the operation fail (the temporary's longer name does not fit): then the statement only
     # asks for old-or-new; for every other name a fault-free operation has to succeed
     may_fail = name_class == "near-limit"
@@ -161,19 +201,36 @@ def _enumerate(sim, F, variant, old, new, name_class, name_len, errs, write_pick
         if content is None or not is_sob:
             return content
         if content not in encoded:
-            encoded[content] = pickle.dumps(Obj(content), 2)
+            encoded[content] = _encode(style, content)
         return encoded[content]
 
     def reset():
         F.reboot()
-        if os.path.isdir(d):
-            for n in os.listdir(d):
-                os.remove(os.path.join(d, n))
-        else:
-            os.mkdir(d)
-        if old is not None:
-            with open(target, "wb") as f:
-                f.write(encode(old))
+        for x in (d, side):
+            if os.path.isdir(x):
+                for n in os.listdir(x):
+                    os.remove(os.path.join(x, n))
+            else:
+                os.mkdir(x)
+        if kind == "dangling-symlink":
+            os.symlink(os.path.join(side, "gone" + suffix), target)
+        if old is None:
+            return
+        first = os.path.join(side, "real" + suffix) if kind == "symlink" else target
+        with open(first, "wb") as f:
+            f.write(encode(old))
+        if kind == "symlink":
+            os.symlink(first, target)
+        elif kind == "hardlink-same-dir":
+            os.link(target, os.path.join(d, pre[0]))
+        elif kind == "hardlink-other-dir":
+            os.link(target, os.path.join(side, "snapshot" + suffix))
+
+    def persistent(content, name):
+        p = sob.Persistent(Obj(content), name)
+        if style != "pickle":
+            p.setStyle(style)
+        return p
 
     def operate(content):
         if variant == "setContent":
@@ -184,11 +241,14 @@ def _enumerate(sim, F, variant, old, new, name_class, name_len, errs, write_pick
             cwd = os.getcwd()
             os.chdir(d)
             try:
-                sob.Persistent(Obj(content), stem).save()
+                if tag:
+                    persistent(content, stem).save(tag=tag)
+                else:
+                    persistent(content, stem).save()
             finally:
                 os.chdir(cwd)
         else:
-            sob.Persistent(Obj(content), "app").save(filename=target)
+            persistent(content, "app").save(filename=target)
 
     def attempt(content, **arm):
         """One call of the operation under the armed faults -> ("ok" | "failed" | "crashed", exception)."""
@@ -208,7 +268,7 @@ def _enumerate(sim, F, variant, old, new, name_class, name_len, errs, write_pick
             raw = f.read()
         if is_sob:
             try:
-                o = pickle.loads(raw)
+                o = aot.unjellyFromSource(io.BytesIO(raw)) if style == "source" else pickle.loads(raw)
             except Exception as e:
                 return ("garbage", type(e).__name__, len(raw))
             return o.payload if isinstance(o, Obj) else ("garbage", "type", len(raw))
@@ -231,11 +291,11 @@ def _enumerate(sim, F, variant, old, new, name_class, name_len, errs, write_pick
         if variant == "setContent-ext":
             return name != tname and name.endswith(tname + ".tmp")
         if variant == "sob.save":
-            return name == stem + "-2.tap"
+            return name == stem + mid + "-2" + ext
         return name == tname + "-2"
 
     def strays():
-        return [x for x in sorted(os.listdir(d)) if x != tname and not is_temp(x)]
+        return [x for x in sorted(os.listdir(d)) if x != tname and x not in pre and not is_temp(x)]
 
     def torn_lengths(op, size):
         if op == "write" and size:
@@ -279,27 +339,33 @@ def _enumerate(sim, F, variant, old, new, name_class, name_len, errs, write_pick
     plan = list(F.log)
     if outcome == "failed" and may_fail:
         sim.probe("name-too-long-refused")
-        sim.check("error-old-or-new", holds(old), variant, lambda: "refused operation left %s; old=%s" % (_d(read_raw()), _d(encode(old))))
+        sim.check("error-old-or-new", holds(old), label, lambda: "refused operation left %s; old=%s" % (_d(read_raw()), _d(encode(old))))
     else:
         if outcome != "ok":
-            sim.fail("crash-free-raised", "%s:%s" % (variant, type(exc).__name__), "%s: %s" % (type(exc).__name__, str(exc)[:200]))
-        sim.check("crash-free-new-content", holds(new), variant, "crash-free operation did not leave the new content")
-        sim.check("crash-free-no-leftovers", sorted(os.listdir(d)) == [tname], variant, lambda: "left: %r" % sorted(os.listdir(d)))
-        sim.check("has-crash-points", npoints >= 2, variant, "interposer saw %d mutating calls" % npoints)
+            sim.fail("crash-free-raised", "%s:%s" % (label, type(exc).__name__), "%s: %s" % (type(exc).__name__, str(exc)[:200]))
+        sim.check("crash-free-new-content", holds(new), label, "crash-free operation did not leave the new content")
+        sim.check("crash-free-no-leftovers", sorted(os.listdir(d)) == sorted([tname] + pre), label, lambda: "left: %r" % sorted(os.listdir(d)))
+        sim.check("has-crash-points", npoints >= 2, label, "interposer saw %d mutating calls" % npoints)
     sim.event("points", outcome, npoints, " ".join(p[1] for p in plan))
     if name_class != "short":
         sim.probe("name:" + name_class)
+    if kind not in ("file", "absent"):
+        sim.probe("target-kind:" + kind)
+    if style == "source":
+        sim.probe("style:source")
+    if tag:
+        sim.probe("tagged-name")
     torn_seen = 0
     for (n, op, rel, size) in plan:
         for torn in torn_lengths(op, size):
             reset()
             crashed, _ = attempt(new, crash_at=n, torn=torn)
-            sim.check("crash-fired", crashed == "crashed" and F.crashed_op == op, variant, "crash point %d (%s) did not fire identically" % (n, op))
+            sim.check("crash-fired", crashed == "crashed" and F.crashed_op == op, label, "crash point %d (%s) did not fire identically" % (n, op))
             sim.fault("crash@" + op)
             if op == "write" and torn:
                 sim.fault("torn_write")
                 torn_seen += 1
-            after_crash("%s@%s" % (variant, op), "crash at point %d/%d (%s %s, torn=%s)" % (n, npoints, op, rel, torn))
+            after_crash("%s@%s" % (label, op), "crash at point %d/%d (%s %s, torn=%s)" % (n, npoints, op, rel, torn))
             sim.step(100000)
 
     # errno faults: every non-write call with the run's errnos of its class (3 open-class, 2 rename-class), the first / last / one drawn
@@ -317,10 +383,10 @@ def _enumerate(sim, F, variant, old, new, name_class, name_len, errs, write_pick
                 ename = errno.errorcode[err]
                 reset()
                 outcome, exc = attempt(new, errno_at=k, err=err)
-                sim.check("fault-fired", outcome != "crashed" and F.crashed_op == op, variant, "errno fault at call %d (%s) did not fire identically" % (k, op))
+                sim.check("fault-fired", outcome != "crashed" and F.crashed_op == op, label, "errno fault at call %d (%s) did not fire identically" % (k, op))
                 sim.fault("errno@" + op)
                 fplan = list(F.log)
-                wit = "%s@%s" % (variant, op)
+                wit = "%s@%s" % (label, op)
                 what = "%s at call %d (%s %s)" % (ename, k, op, rel)
                 if outcome == "ok":
                     # the operation coped with the error and reported success: then the new content has to be there
@@ -338,15 +404,15 @@ def _enumerate(sim, F, variant, old, new, name_class, name_len, errs, write_pick
                     for torn in torn_lengths(op2, size2):
                         reset()
                         crashed, _ = attempt(new, crash_at=n, torn=torn, errno_at=k, err=err)
-                        sim.check("crash-fired", crashed == "crashed" and F.crashed_op == op2, variant,
+                        sim.check("crash-fired", crashed == "crashed" and F.crashed_op == op2, label,
                                   "crash point %d (%s) after %s did not fire identically" % (n, op2, what))
                         sim.fault("errno-then-crash@" + op2)
                         post_points += 1
-                        after_crash("%s@%s-after-failed-%s" % (variant, op2, op),
+                        after_crash("%s@%s-after-failed-%s" % (label, op2, op),
                                     "%s, then crash at point %d/%d (%s %s, torn=%s)" % (what, n, len(fplan), op2, rel2, torn))
                         sim.step(100000)
     sim.nontrivial = npoints >= 3 and torn_seen > 0
-    sim.state((variant, npoints, old is None, name_class, base_outcome, errs is not None, min(post_points, 3)))
+    sim.state((variant, style, bool(tag), kind, npoints, old is None, name_class, base_outcome, errs is not None, min(post_points, 3)))
 
 
 def _d(x):
@@ -368,4 +434,13 @@ MUTANTS = [
     "setContent: OSError while writing the sibling swallowed when the sibling exists, rename goes ahead: caught, error-then-success-new-content:setContent@write",
     "setContent: `except OSError: os.unlink(self.path); raise` clean-up around the sibling write: caught, error-old-or-new:setContent@os.open",
     "sob.save: scratch name longer than 255 bytes -> _saveTemp(finalname) directly: caught, old-or-new:sob.save-filename@write (near-limit basename)",
+    "seeded C52-r4a-hardlink-inplace-copy (setContent copies the sibling over the target in place when the target has a second hard link): caught, "
+    "old-or-new:setContent+hardlink-same-dir@write / setContent-ext+hardlink-other-dir@write (target-kind family)",
+    "seeded C52-r4b-source-style-backup-rename (source-style save renames the old file to <target>~ before renaming the scratch file in): caught, "
+    "crash-free-no-leftovers:sob.save+source / only-temporaries-left:sob.save-filename+source@open(w)/same (style family)",
+    "sob.save: same two-step replacement but the backup is removed at the end (nothing left behind): caught, old-or-new:sob.save+source+tag@rename",
+    "setContent: a symlinked target is rewritten in place through the link: caught, has-crash-points / old-or-new:setContent+symlink@write",
+    "sob._getFilename: tagged save uses the untagged scratch name <name>-2.<ext>: caught, only-temporaries-left:sob.save+source+tag@write",
+    "setContent: for a dangling-symlink target the sibling is renamed onto the link's destination instead of over the link: NOT flagged, correctly - the target path "
+    "reads absent-or-new at every crash point",
 ]
